@@ -643,6 +643,50 @@ def rounding_level_a(which='obligations'):
             'unsupported': uns, 'instances': len(recs)}
 
 
+def fs_level_a(props):
+    """contracts/fs_contracts.py: the real file_archive.__save__/__asdict__ and the mutating mapping methods built on them, over the assumed
+    file-system contract; `props`: which obligations (by property) to report"""
+    from contracts import fs_contracts as FC
+    from pyvc import driver
+    import z3
+    obs, sha = FC.obligations()
+    uns = ['%s: %s' % (o.func, o.info['unsupported']) for o in obs if o.info.get('unsupported') and o.prop in props]
+    obs = [o for o in obs if not o.info.get('unsupported') and o.prop in props]
+    recs, nq = driver.discharge_grouped(obs)
+    names, funcs, ms = {}, set(), 0.0
+    for r in recs:
+        ok = names.setdefault(r['name'], [True, ''])
+        funcs.add(r['func'])
+        ms += r['ms']
+        if r['res'] != 'unsat':
+            ok[0] = False
+            ok[1] = '%s on path %s (%s)' % (r['res'], r['path'], r['reason'])
+    # vacuity guard: the premises of the paths are not contradictory (one query per function: premises => False must NOT be provable)
+    seen = set()
+    for o in obs:
+        if o.func in seen or not o.pc:
+            continue
+        seen.add(o.func)
+        res, _, _, _ = driver.solve(o.pc, z3.BoolVal(False), 4000)
+        if res == 'unsat':
+            names['%s/premises_are_satisfiable' % o.func] = [False, 'the path condition of %s is contradictory: every obligation on it holds vacuously' % o.path]
+    return {'obligations': len(names), 'discharged': sum(1 for v in names.values() if v[0]),
+            'failed': [(n, v[1]) for n, v in names.items() if not v[0]], 'functions': sorted(funcs), 'ms': round(ms, 1),
+            'unsupported': uns, 'instances': len(recs)}
+
+
+def merge_level_a(*parts):
+    out = {'obligations': 0, 'discharged': 0, 'failed': [], 'functions': [], 'ms': 0.0, 'unsupported': []}
+    for p in parts:
+        out['obligations'] += p['obligations']
+        out['discharged'] += p['discharged']
+        out['failed'] += p['failed']
+        out['functions'] = sorted(set(out['functions']) | set(p['functions']))
+        out['ms'] = round(out['ms'] + p['ms'], 1)
+        out['unsupported'] += p['unsupported']
+    return out
+
+
 def keymap_level_a():
     """contracts/keymap_contracts.py: the real keymap.encode / encrypt under contract"""
     from contracts import keymap_contracts as KC
